@@ -2,10 +2,12 @@
 from vlib.framework import PUnit, LUnit, BUnit
 from bounded import b_links as B
 from contracts import links as L
+from contracts import effects as E
 
 P_UNITS = [PUnit("link-atoms-identify-one-atom", L.CONTRACTS, L.REG),
            PUnit("relative-order-of-link-residues", [L.CHECK_ORDER], L.REG_ORD),
-           LUnit("veto-before-effect", L.lemma_veto_before_effect)]
+           LUnit("veto-before-effect", L.lemma_veto_before_effect),
+           LUnit("version-tags-per-interaction-type", E.lemma_versions_per_type)]
 
 
 def build(tier, seed):
